@@ -365,6 +365,16 @@ def pick_paths(paths, n, rnd):
     return out, len(groups)
 
 
+def flood_paths():
+    """One session pipelines many get-all requests and reads none of the replies while the owner keeps calling (the
+    replies fill the session's socket buffer; the owner's calls must neither fail nor wait), then reads them all."""
+    out = []
+    for n in (6, 9, 12):
+        p = ["conn:1:-:-", "poll:0:-:-"] + ["send:1:all:-"] * n + ["poll:0:-:-"] * (n + 2) + ["recv:1:-:-"] * n + ["poll:0:-:-", "asend:0:-:-"]
+        out.append(tuple(p))
+    return out
+
+
 def pair_paths():
     """Behaviours of Ctl.tla in which two established sessions each have one event pending in the SAME server round
     (a request of every kind, or a disconnect), in both slot orders: what one session does must not leak into the
@@ -856,6 +866,11 @@ def check(pid, tier, seed):
     # two sessions with events pending in the same round: on an established connection of every transport (2 x quick, 6 x thorough)
     pairs = pair_paths()
     est = [sc for sc in scs if sc[1] in ("cli", "acc") and sc[2] in ("small", "big")]
+    for j, p in enumerate(flood_paths() * (1 if tier == "quick" else 3)):
+        for sc in (est[j % len(est)], est[(j * 5 + 2) % len(est)]):
+            xid = len(execs) + 1
+            execs.append((xid, script_for(p, xid, sc, info[sc], creds, rnd, info[sc]["msgsz"])))
+            chosen.append(p)
     for rep_ in range(1 if tier == "quick" else 3):
         for j, p in enumerate(pairs):
             for sc in (est[(j + rep_) % len(est)], est[(j * 7 + 3 + rep_) % len(est)]):
